@@ -71,6 +71,7 @@ type Op struct {
 	Max   uint64  `json:"max,omitempty"`
 	Which int     `json:"which,omitempty"` // iterator kind
 	Plans [4]Plan `json:"plans,omitempty"`
+	Ctx   int     `json:"ctx,omitempty"` // loader-backed calls: 0 background, 1 already cancelled, 2 deadline in the past (the loaders ignore it)
 }
 
 func (o Op) String() string {
@@ -98,6 +99,14 @@ func (o Op) String() string {
 	}
 	return fmt.Sprintf("%s(%d)", opNames[o.Kind], o.Key)
 }
+
+var cancelledCtx, expiredCtx = func() (context.Context, context.Context) {
+	c1, cancel := context.WithCancel(context.Background())
+	cancel()
+	c2, cancel2 := context.WithDeadline(context.Background(), time.Unix(1, 0))
+	_ = cancel2
+	return c1, c2
+}()
 
 // Runner executes operations on the cache and the model in lock step.
 type Runner struct {
@@ -155,6 +164,12 @@ func (r *Runner) exec(op *Op) (o obs) {
 	e := r.Env
 	c := e.Cache
 	ctx := context.Background()
+	switch op.Ctx {
+	case 1:
+		ctx = cancelledCtx
+	case 2:
+		ctx = expiredCtx
+	}
 	for i := range op.Plans {
 		p := op.Plans[i]
 		e.plans[i] = loadPlan{Out: p.Out, Shape: p.Shape, Mask: p.Mask, Extra: p.Extra, PanicOf: p.Pan, Nested: p.Nest}
